@@ -186,6 +186,16 @@ func c04Run(c *mc.Ctx) {
 		}
 		readerBFS(c, "C04", ReaderCfg{Kind: "default", DLen: 300, Env: EnvCfg{Chunk: 1}, Sizes: []int{1, 100, 4097}, Warm: warm, NoNeg: true}, 3, 0)
 	}
+	// 1c. requests beyond 1 MiB / 2 MiB (above every pooling and retention threshold) on a 3 MiB stream
+	for _, env := range []EnvCfg{{}, {Chunk: 65536, ErrWithLast: true, Err: 1}, {Chunk: 1<<20 + 7, ZeroReads: 1, Err: 2, AfterErr: 1}} {
+		if !c.Mine() {
+			continue
+		}
+		readerBFS(c, "C04", ReaderCfg{Kind: "default", DLen: 3<<20 + 11, Env: env, Sizes: []int{5, 1<<20 + 1, 1 << 21}, NoNeg: true}, 3, 0)
+	}
+	if c.Mine() {
+		readerBFS(c, "C04", ReaderCfg{Kind: "bytes", DLen: 2<<20 + 5, SpareCap: 1<<20 - 5, Sizes: []int{5, 1<<20 + 1, 1 << 21}, NoNeg: true}, 3, 0)
+	}
 	// 2. explicit-state search, bytes-backed
 	for _, sh := range bytesShapes {
 		if !c.Mine() {
